@@ -111,6 +111,7 @@ template<typename Alloc>
 bool splinetable<Alloc>::read_fits(const std::string& filePath){
 	if(ndim!=0)
 		throw std::runtime_error("splinetable already contains data, cannot read from file");
+	clear(); //an empty table may still hold auxiliary keys, which the file's keys replace
 	
 	fitsfile* fits;
 	int error = 0;
@@ -140,6 +141,7 @@ template<typename Alloc>
 bool splinetable<Alloc>::read_fits_mem(void* buffer, size_t buffer_size){
 	if(ndim!=0)
 		throw std::runtime_error("splinetable already contains data, cannot read from (memory) file");
+	clear(); //an empty table may still hold auxiliary keys, which the file's keys replace
 	
 	fitsfile* fits;
 	int error = 0;
@@ -275,10 +277,10 @@ bool splinetable<Alloc>::read_fits_core(fitsfile* fits, const std::string& fileP
 				aux[i] = allocate<char_ptr>(2);
 				aux[i][0] = aux[i][1] = NULL;
 				aux[i][0] = allocate<char>(keylen);
+				std::copy(key,key+keylen,aux[i][0]);
 				//allocate exactly what is stored: the storage is later released
 				//with the length of the string it holds
 				aux[i][1] = allocate<char>(vlen+1);
-				std::copy(key,key+keylen,aux[i][0]);
 				std::copy(vbegin,vbegin+vlen,aux[i][1]);
 				aux[i][1][vlen]='\0';
 				i++;
